@@ -148,7 +148,9 @@ func genWrites(r *rt.Rand, tier string, idx int, o writeOpts) *world.Scenario {
 		class = "writers+concurrent-compaction"
 		var cl world.Client
 		for i := 0; i < 2+r.Intn(5); i++ {
-			cl.Ops = append(cl.Ops, world.Op{K: "compact", Rev: world.Rev{M: "committed", N: -int64(r.Intn(3))}})
+			// at, just below, or ahead of the committed revision (a request ahead of it must not reach writes
+			// that are still in flight)
+			cl.Ops = append(cl.Ops, world.Op{K: "compact", Rev: world.Rev{M: "committed", N: int64(r.Intn(7)) - 2}})
 			if r.Chance(0.5) {
 				cl.Ops = append(cl.Ops, world.Op{K: "get", Key: keys[0]})
 			}
